@@ -63,7 +63,9 @@ void iobuffer::export_buffer(FILE *fout, bool ispadding)
   WENCRY_VERIF_POINT(WV_BUF_EXPORT_STEP, this, 0);
   if (isfinal)
   {
-    u8_t padding = ispadding ? 0 : b[now - 1][15];
+    u8_t padding = (ispadding || now == 0) ? 0 : b[now - 1][15];
+    if (padding > 16 || padding > (now << 4))
+      padding = 0; // not a PKCS#7 pad: never let the length underflow
     fwrite(b, 1, (now << 4) - padding, fout);
   }
   else
